@@ -78,6 +78,27 @@ func genC12(rng *rand.Rand, c *Case) {
 		}
 		return rng.Intn(60)
 	}
+	if n >= 4 && rng.Intn(3) == 0 {
+		// a crowded chat: everybody joins the first chat early, then several pairs of members act on it at the same
+		// instant (one speaks or changes the subject while another leaves or comes back)
+		c.Ops = append(c.Ops, Op{C: 0, K: "mkchat", N: []int{1, slots}})
+		for i := 1; i < n; i++ {
+			c.Ops = append(c.Ops, Op{C: i, K: "delay", N: []int{20 + rng.Intn(40)}}, Op{C: i, K: "join", N: []int{slots}})
+		}
+		for r := 0; r < 2+rng.Intn(4); r++ {
+			a := rng.Intn(n)
+			b := (a + 1 + rng.Intn(n-1)) % n
+			id := 1000 + r
+			c.Ops = append(c.Ops, Op{C: a, K: "meet", N: []int{id, 2}}, Op{C: b, K: "meet", N: []int{id, 2}})
+			if rng.Intn(3) == 0 {
+				c.Ops = append(c.Ops, Op{C: a, K: "subject", N: []int{slots, rng.Intn(40)}})
+			} else {
+				c.Ops = append(c.Ops, Op{C: a, K: "psay", N: []int{slots, rng.Intn(60), 0}})
+			}
+			c.Ops = append(c.Ops, Op{C: b, K: []string{"leave", "leave", "join"}[rng.Intn(3)], N: []int{slots}})
+		}
+		slots++
+	}
 	total := 8 + rng.Intn(40)
 	for j := 0; j < total; j++ {
 		ci := rng.Intn(n)
